@@ -68,7 +68,7 @@ Fixpoint cb_fifos (m : buffers) : res (list (N * list entry)) :=
 
 (* ---------- main.rs:39-74  chronobox_time, in ticks ---------- *)
 Definition TIMESTAMP_BITS : N := 24.
-Definition marker := (bool * N)%type.          (* (timestamp_top_bit, wrap_around_counter) *)
+Notation marker := (bool * N)%type (only parsing).          (* (timestamp_top_bit, wrap_around_counter) *)
 
 Definition chronobox_time (ts : N) (previous next : option marker) : option N :=
   match previous, next with
